@@ -235,7 +235,7 @@ def compare_name(pl: str, pns: Any, dns: Any, name: str, label: str, full: str, 
         return
     if dobj is None:
         if pl == 'main-else':
-            label = 'any-definition'      # one structural cause whatever is defined there: the else clause of the main guard is not walked
+            label, extra_sig = 'any-definition', ''      # one structural cause whatever is defined there (alone or in a pair): the else clause of the main guard is not walked
         res['violations'].append(core.violation(f'missing/{pl}/{label}{extra_sig}', f'CPython binds {name} ({pk[0]}) but pydoctor documents nothing:\n{full}', case))
         return
     if label.startswith('presence:'):
